@@ -35,6 +35,7 @@ import (
 // the machine is shared with other checks: a case that has not answered after a minute is a hang, not before
 const c12Timeout = 60 * time.Second
 
+var c12ScratchCwd string
 var c12FsChecked = false
 var c12FsCollision = ""
 
@@ -42,7 +43,27 @@ var c12FsCollision = ""
 // otherwise utils.ResolveSymbolicLink (develop.watch) would consult a real directory entry.
 var c12Roots = []string{"/vw", "/vh", "/vabs", "/vo"}
 
+var c12OrigHome, c12OrigCwd string
+var c12HadHome bool
+
+// c12Restore puts the process environment back (HOME, working directory): the child processes are shared.
+func c12Restore() {
+	if c12HadHome {
+		os.Setenv("HOME", c12OrigHome)
+	} else {
+		os.Unsetenv("HOME")
+	}
+	if c12OrigCwd != "" {
+		os.Chdir(c12OrigCwd)
+	}
+}
+
 func c12Prepare(home string) string {
+	c12OrigHome, c12HadHome = os.LookupEnv("HOME")
+	c12OrigCwd, _ = os.Getwd()
+	if c12ScratchCwd != "" {
+		os.Chdir(c12ScratchCwd)
+	}
 	if !c12FsChecked {
 		c12FsChecked = true
 		for _, r := range c12Roots {
@@ -54,6 +75,7 @@ func c12Prepare(home string) string {
 		if base := os.Getenv("VERIF_SCRATCH"); base != "" {
 			d := filepath.Join(base, fmt.Sprintf("cwd-%d", os.Getpid()), "p", "q", "r")
 			if os.MkdirAll(d, 0o755) == nil {
+				c12ScratchCwd = d
 				os.Chdir(d)
 			}
 		}
@@ -122,6 +144,7 @@ func c12Resolve(tree any, wd string, remotes []string) (map[string]any, any) {
 func realResolve(raw json.RawMessage) any {
 	var a resolveArgs
 	json.Unmarshal(raw, &a)
+	defer c12Restore()
 	if c := c12Prepare(a.Home); c != "" {
 		return map[string]any{"bad": "fs-collision " + c}
 	}
@@ -420,6 +443,7 @@ func init() {
 		Real: func(raw json.RawMessage) any {
 			var a pArgs
 			json.Unmarshal(raw, &a)
+			defer c12Restore()
 			c12Prepare(a.Home)
 			return map[string]any{"remote": paths.VerifIsRemoteContext(a.P), "expand": paths.ExpandUser(a.P)}
 		},
@@ -433,6 +457,7 @@ func init() {
 		Real: func(raw json.RawMessage) any {
 			var a attrArgs
 			json.Unmarshal(raw, &a)
+			defer c12Restore()
 			if c := c12Prepare(a.Home); c != "" {
 				return map[string]any{"bad": "fs-collision " + c}
 			}
@@ -484,6 +509,7 @@ func init() {
 		Real: func(raw json.RawMessage) any {
 			var a resolveArgs
 			json.Unmarshal(raw, &a)
+			defer c12Restore()
 			if c := c12Prepare(a.Home); c != "" {
 				return map[string]any{"bad": "fs-collision " + c}
 			}
@@ -542,6 +568,7 @@ func init() {
 		Real: func(raw json.RawMessage) any {
 			var a resolveArgs
 			json.Unmarshal(raw, &a)
+			defer c12Restore()
 			if c := c12Prepare(a.Home); c != "" {
 				return map[string]any{"bad": "fs-collision " + c}
 			}
@@ -592,6 +619,7 @@ func init() {
 		Real: func(raw json.RawMessage) any {
 			var a composeArgs
 			json.Unmarshal(raw, &a)
+			defer c12Restore()
 			if c := c12Prepare(a.Home); c != "" {
 				return map[string]any{"bad": "fs-collision " + c}
 			}
